@@ -191,7 +191,16 @@ def check_guard(eng, run):
         for node, msg in bad[:1]:
             run.finding("C07.guard", fn, _stmt_of(fn, node), msg + ": a peer that never completes the frame makes the buffer grow without bound")
         # the accumulating loop has a LimitOverrunError exit (directly or through a checking helper), or is bounded by a constructor constant
-        has_limit_exit = any(isinstance(r, ast.Raise) and r.exc is not None and "LimitOverrunError" in ast.unparse(r.exc) for r in own_nodes(fn.node)) or \
+        def _raises_limit(r):
+            if "LimitOverrunError" in ast.unparse(r.exc):
+                return True
+            if isinstance(r.exc, ast.Call):  # an error factory annotated `-> LimitOverrunError`
+                for t in eng.typer.call_targets(fn, r.exc, dispatch=False):
+                    ret = getattr(getattr(t, "node", None), "returns", None)
+                    if ret is not None and "LimitOverrunError" in ast.unparse(ret):
+                        return True
+            return False
+        has_limit_exit = any(isinstance(r, ast.Raise) and r.exc is not None and _raises_limit(r) for r in own_nodes(fn.node)) or \
             any(isinstance(c, ast.Call) and "limit" in _cname(c).lower() for c in own_nodes(fn.node)) or \
             any(isinstance(w, ast.While) and isinstance(w.test, ast.Compare) and isinstance(w.test.ops[0], ast.Lt) and
                 ("len(" in ast.unparse(w.test) or {x.id for x in ast.walk(w.test) if isinstance(x, ast.Name)} & size_names) for w in own_nodes(fn.node))
@@ -304,6 +313,7 @@ def check_early(eng, run):
     # ... in read_until itself or in the private helper it hands the match to through namesake arguments
     from sa.norm import nodes_inl, private_helper
     owners = [ru]
+    call_of_owner = {}
     for c_ in own_nodes(ru.node):
         if isinstance(c_, ast.Call):
             g_ = private_helper(ru, c_)
@@ -313,7 +323,9 @@ def check_early(eng, run):
                     ps_ = ps_[1:]
                 if not c_.keywords and all(isinstance(a_, ast.Name) and i_ < len(ps_) and a_.id == ps_[i_] for i_, a_ in enumerate(c_.args)):
                     owners.append(g_)
+                    call_of_owner[g_.qualname] = c_
     test = None
+    ru_test = None
     ok = False
     any_slices = False
     all_dominated = True
@@ -333,9 +345,13 @@ def check_early(eng, run):
                 lin = lin_resolved(ow, n.slice.upper)
                 if lin is not None and any(v in lin for v in fv):
                     slices.append(n)
+        if ow is ru:
+            ru_test = t_
         if slices:
             any_slices = True
-            if t_ is None or not all(t_.lineno < s_.lineno for s_ in slices):
+            if t_ is None and ow is not ru and ru_test is not None and ru_test.lineno < call_of_owner[ow.qualname].lineno:
+                pass  # the helper that slices the frame out is only called after the test in read_until() itself
+            elif t_ is None or not all(t_.lineno < s_.lineno for s_ in slices):
                 all_dominated = False
         test = test or t_
     ok = test is not None and any_slices and all_dominated
